@@ -11,7 +11,7 @@ Definition ex_cfg (fl : list nat) : cfg :=
   mkcfg [(0, USeq [Some (IPy 0); Some (IObj 1); Some (IPy 3)]); (1, UIter [IPy 1; IPy 2] false)]
         [(0, (ENone, true)); (1, (ESeq [RItem (IPy 4); RNext], true)); (2, (ENone, false))] []
         [(0, CtxOk [0]); (1, CtxOk [1]); (2, CtxRaise)] [(0, FillOk [IObj 1]); (1, FillRaise)]
-        fl true src_guards src_uguard.
+        fl true src_guards 100.
 
 (* every hook call site of extract_iter is inside try/except Exception -> save_errors.append
    (facts re-extracted from the source on every run); if one `try` disappears this fails *)
@@ -65,6 +65,24 @@ Print Assumptions C05_errors_exact_any_state.
 Example C05_errors_exact_ex :
   exists s, extract_t (ex_cfg [3; 9; 12; 40]) (IObj 0) 0 = (Ok s, 21) /\ tree_faults s = [3; 9; 12].
 Proof. eexists. split; vm_compute; reflexivity. Qed.
+
+(* within one Stack the reported fault ticks are in firing order: read from the last error to the
+   first they strictly decrease and all lie below the final tick (so no fault is reported twice) *)
+Theorem C05_errors_in_order : forall c root frs lf es,
+  grd c = src_guards -> extract c root = Ok (Stack frs lf es) ->
+  exists t', snd (extract_t c root 0) = t' /\ desc_below t' (rev (efaults es)).
+Proof. exact extract_errors_ordered. Qed.
+Print Assumptions C05_errors_in_order.
+
+Theorem C05_errors_in_order_any_state : forall fuel first c tu te errs out t o t',
+  grd c = all_guards -> run fuel first c tu te errs out t = (o, t') ->
+  t <= t' /\ forall frs lf es, o = Ok (Stack frs lf es) -> ord errs t -> desc_below t' (rev (efaults es)).
+Proof. exact run_ord. Qed.
+Print Assumptions C05_errors_in_order_any_state.
+
+Example C05_errors_in_order_ex :
+  exists frs lf es, extract (ex_cfg [3; 5; 12; 16]) (IObj 0) = Ok (Stack frs lf es) /\ efaults es = [3; 5; 12].
+Proof. do 3 eexists. split; vm_compute; reflexivity. Qed.
 
 (* frames already yielded and errors already recorded are never dropped, reordered or altered by
    anything that happens later in the traversal (any hook results, any faults, any guards):
